@@ -93,6 +93,9 @@ VARIANTS = [
     ('ugrid topology_dimension missing', 'ugrid', {}, [_drop_attr('mesh', 'topology_dimension')], {}),
     ('ugrid topology_dimension "2" (string)', 'ugrid', {}, [_set_attr('mesh', 'topology_dimension', '2')], {}),
     ('nothing recognisable', 'cf1d', {}, [_drop_attr('lat', 'units'), _drop_attr('lon', 'units')], {}),
+    # near misses of the curvilinear grid: one of the two coordinates is not two-dimensional
+    ('2-D latitude with a 1-D longitude', 'cf2d', {}, ['_lon_1d'], {}),
+    ('1-D latitude with a 2-D longitude', 'cf2d', {}, ['_lat_1d'], {}),
     # a SHOC simple file that also carries 1-D station positions, stored ahead of the grid coordinates: still SHOC simple (its own (j, i)
     # coordinates are what makes it one); the generic 1-D test sees the station variables
     ('shoc simple with 1-D station latitude / longitude variables listed first', 'shoc_simple', {}, ['_prepend_stations'], {'ShocSimple': HIGH, 'CFGrid1D': LOW}),
@@ -131,7 +134,32 @@ def _prepend_station_lat(ds):
     _prepend(ds, [('station_lat', 'degrees_north')])
 
 
-_MODS = {'_add_ji': _add_ji, '_prepend_stations': _prepend_stations, '_prepend_station_lat': _prepend_station_lat}
+def _coord_1d(ds, name, dim):
+    from pyvc.api import sym_array
+    c = core.ctx()
+    v = ds._vars[name]
+    n = ds._sizes()[dim]
+    was_coord = name in ds._coord_names
+    attrs = dict(v.attrs)
+    keys = list(ds._vars)
+    rest = {k: ds._vars[k] for k in keys}
+    ds._vars.clear()
+    for k in keys:
+        if k == name:
+            add_var(ds, name, (dim,), sym_array(c, name + '_1d', (n,), 'floatnan'), attrs, coord=was_coord)
+        else:
+            ds._vars[k] = rest[k]
+
+
+def _lon_1d(ds):
+    _coord_1d(ds, 'lon', 'i')
+
+
+def _lat_1d(ds):
+    _coord_1d(ds, 'lat', 'j')
+
+
+_MODS = {'_lon_1d': _lon_1d, '_lat_1d': _lat_1d, '_add_ji': _add_ji, '_prepend_stations': _prepend_stations, '_prepend_station_lat': _prepend_station_lat}
 for _k, _v in enumerate(VARIANTS):
     VARIANTS[_k] = (_v[0], _v[1], _v[2], [(_MODS[m] if isinstance(m, str) else m) for m in _v[3]], _v[4])
 TIE_VARIANT = len(VARIANTS) - 1
